@@ -29,7 +29,7 @@ pub use dashu_macros as __dashu_macros;
 #[doc = include_str!("macro-docs/ubig.md")]
 macro_rules! ubig {
     ($($t:tt)+) => {
-        $crate::__dashu_macros::ubig_embedded!($($t)+)
+        $crate::__dashu_macros::ubig_embedded!([$crate] $($t)+)
     }
 }
 
@@ -38,7 +38,7 @@ macro_rules! ubig {
 #[doc = include_str!("macro-docs/static_ubig.md")]
 macro_rules! static_ubig {
     ($($t:tt)+) => {
-        $crate::__dashu_macros::static_ubig_embedded!($($t)+)
+        $crate::__dashu_macros::static_ubig_embedded!([$crate] $($t)+)
     }
 }
 
@@ -46,7 +46,7 @@ macro_rules! static_ubig {
 #[doc = include_str!("macro-docs/ibig.md")]
 macro_rules! ibig {
     ($($t:tt)+) => {
-        $crate::__dashu_macros::ibig_embedded!($($t)+)
+        $crate::__dashu_macros::ibig_embedded!([$crate] $($t)+)
     }
 }
 
@@ -55,7 +55,7 @@ macro_rules! ibig {
 #[doc = include_str!("macro-docs/static_ibig.md")]
 macro_rules! static_ibig {
     ($($t:tt)+) => {
-        $crate::__dashu_macros::static_ibig_embedded!($($t)+)
+        $crate::__dashu_macros::static_ibig_embedded!([$crate] $($t)+)
     }
 }
 
@@ -63,7 +63,7 @@ macro_rules! static_ibig {
 #[doc = include_str!("macro-docs/fbig.md")]
 macro_rules! fbig {
     ($($t:tt)+) => {
-        $crate::__dashu_macros::fbig_embedded!($($t)+)
+        $crate::__dashu_macros::fbig_embedded!([$crate] $($t)+)
     }
 }
 
@@ -72,7 +72,7 @@ macro_rules! fbig {
 #[doc = include_str!("macro-docs/static_fbig.md")]
 macro_rules! static_fbig {
     ($($t:tt)+) => {
-        $crate::__dashu_macros::static_fbig_embedded!($($t)+)
+        $crate::__dashu_macros::static_fbig_embedded!([$crate] $($t)+)
     }
 }
 
@@ -80,7 +80,7 @@ macro_rules! static_fbig {
 #[doc = include_str!("macro-docs/dbig.md")]
 macro_rules! dbig {
     ($($t:tt)+) => {
-        $crate::__dashu_macros::dbig_embedded!($($t)+)
+        $crate::__dashu_macros::dbig_embedded!([$crate] $($t)+)
     }
 }
 
@@ -89,7 +89,7 @@ macro_rules! dbig {
 #[doc = include_str!("macro-docs/static_dbig.md")]
 macro_rules! static_dbig {
     ($($t:tt)+) => {
-        $crate::__dashu_macros::static_dbig_embedded!($($t)+)
+        $crate::__dashu_macros::static_dbig_embedded!([$crate] $($t)+)
     }
 }
 
@@ -97,7 +97,7 @@ macro_rules! static_dbig {
 #[doc = include_str!("macro-docs/rbig.md")]
 macro_rules! rbig {
     ($($t:tt)+) => {
-        $crate::__dashu_macros::rbig_embedded!($($t)+)
+        $crate::__dashu_macros::rbig_embedded!([$crate] $($t)+)
     }
 }
 
@@ -106,7 +106,7 @@ macro_rules! rbig {
 #[doc = include_str!("macro-docs/static_rbig.md")]
 macro_rules! static_rbig {
     ($($t:tt)+) => {
-        $crate::__dashu_macros::static_rbig_embedded!($($t)+)
+        $crate::__dashu_macros::static_rbig_embedded!([$crate] $($t)+)
     }
 }
 
